@@ -195,7 +195,7 @@ def run_jobs(jobs, trace_out=None, timeout=900, tag="jobs", may_abort=False):
             out = te.stdout or b""
         last_started = None
         done = start
-        for line in out.decode("utf-8", "replace").splitlines():
+        for line in out.decode("utf-8", "replace").split("\n"):
             if not line.strip():
                 continue
             try:
@@ -459,16 +459,26 @@ def traced(jobs, check, tag, timeout=900, chunk_limit=250000):
     os.makedirs(d, exist_ok=True)
     tp = os.path.join(d, "trace.ndjson")
     res = run_jobs(jl, trace_out=tp, tag=tag, timeout=timeout)
-    chunks = {}
-    collect_chunks(res, chunks)
+    # chunk table keyed by (hash, content); the 31-bit hash of the hook is resolved per job (it is only unique within a job:
+    # with several 10^5 chunks in one batch two different chunks do share a hash)
     cp = os.path.join(d, "chunks.ndjson")
-    hidx = {}
+    by_code, job_h = {}, []
     with open(cp, "w") as f:
-        for ch in chunks.values():
-            hidx[ch["h"]] = len(hidx) + 1
-            f.write(json.dumps({"h": ch["h"], "code": ch["code"]}) + "\n")
+        for r in res:
+            hm = {}
+            for st in r:
+                if isinstance(st, dict) and "listing" in st:
+                    for ch in st["listing"]:
+                        ck = (ch["h"], json.dumps(ch["code"], sort_keys=True))
+                        if ck not in by_code:
+                            by_code[ck] = len(by_code) + 1
+                            f.write(json.dumps({"h": ch["h"], "code": ch["code"]}) + "\n")
+                        hm[ch["h"]] = by_code[ck]
+            job_h.append(hm)
     out = [r[:j["_nsteps"]] for r, j in zip(res, jl)]
     enter_re = re.compile(r'"h":(\d+),')
+    job_re = re.compile(r'"job":(\d+)')
+    hidx = {}
     # split the trace file into pieces of bounded size (ndJsonDeserialize materialises the whole file)
     pieces = []
     cur = []
@@ -481,6 +491,9 @@ def traced(jobs, check, tag, timeout=900, chunk_limit=250000):
                     pieces.append(cur)
                     cur = []
                     n = 0
+                if line.startswith('{"e":"reset"'):
+                    mj = job_re.search(line)
+                    hidx = job_h[int(mj.group(1))] if mj and int(mj.group(1)) < len(job_h) else {}
                 if line.startswith('{"e":"enter"'):
                     m = enter_re.search(line)
                     line = line.replace('{"e":"enter",', '{"e":"enter","c":%d,' % hidx.get(int(m.group(1)), 0), 1)
